@@ -1,6 +1,6 @@
 (* C02 — property theorems only.  Each is closed by [exact]; see Sched/ProofsC02.v. *)
 From Coq Require Import List.
-From VV Require Import Sched.Model Sched.Defs Sched.ProofsC02.
+From VV Require Import Sched.Model Sched.Defs Sched.ProofsC02 Sched.Result Sched.ResultProofs.
 Import ListNotations.
 
 (* the specification of the final statuses is the expected rule: SKIPPED iff some hard
@@ -37,3 +37,47 @@ Theorem C02_schedule_independent :
   mp s = MReturned -> mp s' = MReturned -> forall t, t < ntasks c -> est (env s t) = est (env s' t).
 Proof. exact schedule_independent. Qed.
 Print Assumptions C02_schedule_independent.
+
+(* ---- what the worker makes of the value a task returns (Sched/Result.v: transcription of
+   check_result, of the handler around it and of publish) ---- *)
+
+(* a task is recorded DONE exactly when it returned a well-formed pair whose status is DONE and
+   whose update (None, or a mapping whose entry for the task itself is absent or mutable) could be
+   merged; a raise, a value that is not a pair, a non-mapping update, a non-status are FAILED *)
+Theorem C02_result_rule :
+  forall r m,
+  ok (worker_outcome r m) = true <->
+  exists u s, r = Pair u s /\ upd_accepted u = true /\ to_status s = Some DONE
+              /\ (u = UNone \/ m = true).
+Proof. exact outcome_ok_iff. Qed.
+Print Assumptions C02_result_rule.
+
+Theorem C02_malformed_fails :
+  forall r m, well_formed r = false -> worker_outcome r m = mkO false false.
+Proof. exact malformed_fails. Qed.
+Print Assumptions C02_malformed_fails.
+
+Theorem C02_explicit_failed :
+  forall u s m, to_status s = Some FAILED -> ok (worker_outcome (Pair u s) m) = false.
+Proof. exact explicit_failed. Qed.
+Print Assumptions C02_explicit_failed.
+
+(* whatever is returned, the published status is final *)
+Theorem C02_published_final :
+  forall r m, published r m = DONE \/ published r m = FAILED.
+Proof. exact published_final. Qed.
+Print Assumptions C02_published_final.
+
+(* an update is claimed only when it was a mapping of a well-formed result and was merged *)
+Theorem C02_update_only_if_merged :
+  forall r m, has_upd (worker_outcome r m) = true ->
+  m = true /\ well_formed r = true /\ exists o s, r = Pair (UMap o) s.
+Proof. exact has_upd_only_if_merged. Qed.
+Print Assumptions C02_update_only_if_merged.
+
+Theorem C02_accepted_statuses :
+  forall s,
+  (exists st, to_status s = Some st /\ (st = DONE \/ st = FAILED)) <->
+  s = StMember DONE \/ s = StMember FAILED \/ s = StCode 3 \/ s = StCode 4.
+Proof. exact accepted_statuses. Qed.
+Print Assumptions C02_accepted_statuses.
